@@ -1,1 +1,72 @@
-fn main(){}
+//! ENUM checks: C03 C11 C14 C16 C17 C18 C19 C20.
+mod common;
+mod c03;
+mod c11;
+mod c14;
+mod c16;
+mod c17;
+mod c18;
+mod c19;
+mod c20;
+
+use std::time::Instant;
+
+use dex::orch;
+
+fn main() {
+	let argv: Vec<String> = std::env::args().skip(1).collect();
+	let args = orch::parse_args(&argv);
+	let Some(prop) = args.rest.first().cloned() else {
+		eprintln!("usage: h-enum <Cxx> [--tier quick|thorough] [--replay file]");
+		std::process::exit(2);
+	};
+	let t0 = Instant::now();
+	if let Some(path) = &args.replay {
+		let v: orch::ViolationRec = match std::fs::read_to_string(path).ok().and_then(|s| serde_json::from_str(&s).ok()) {
+			Some(v) => v,
+			None => {
+				eprintln!("cannot read replay file {}", path.display());
+				std::process::exit(2);
+			}
+		};
+		let res = match prop.as_str() {
+			"C03" => c03::replay(&v.scenario),
+			"C11" => c11::replay(&v.scenario),
+			"C14" => c14::replay(&v.scenario),
+			"C16" => c16::replay(&v.scenario),
+			"C17" => c17::replay(&v.scenario),
+			"C18" => c18::replay(&v.scenario),
+			"C19" => c19::replay(&v.scenario),
+			"C20" => c20::replay(&v.scenario),
+			_ => {
+				eprintln!("unknown property {prop}");
+				std::process::exit(2);
+			}
+		};
+		println!("input: {}", v.scenario);
+		if res.is_empty() {
+			println!("replay: no violation");
+			std::process::exit(0);
+		}
+		for (k, d) in res {
+			println!("violated: {k}: {d}");
+		}
+		println!("VIOLATION property={prop} replay={}", path.display());
+		std::process::exit(1);
+	}
+	let out = match prop.as_str() {
+		"C03" => c03::run(args.tier, args.seed),
+		"C11" => c11::run(args.tier, args.seed),
+		"C14" => c14::run(args.tier, args.seed),
+		"C16" => c16::run(args.tier, args.seed),
+		"C17" => c17::run(args.tier, args.seed),
+		"C18" => c18::run(args.tier, args.seed),
+		"C19" => c19::run(args.tier, args.seed),
+		"C20" => c20::run(args.tier, args.seed),
+		_ => {
+			eprintln!("unknown property {prop}");
+			std::process::exit(2);
+		}
+	};
+	std::process::exit(common::finish(&prop, args.tier, args.seed, t0, out));
+}
